@@ -139,9 +139,9 @@ Proof. exact quad_node_rotation. Qed.
 Print Assumptions gauss_point_equivariant_rotation.
 
 (* ... which the decimal tables of integrator.h (regenerated from the source) do not satisfy exactly: *)
-Theorem gauss_point_equivariant_refuted : exists p, In p (rule_of_order 3) /\ ~ (qsum p == 1)%Q.
+Theorem gauss_tables_sum_not_exactly_one : exists p, In p (rule_of_order 3) /\ ~ (qsum p == 1)%Q.
 Proof. exact gauss_sum_not_one. Qed.
-Print Assumptions gauss_point_equivariant_refuted.
+Print Assumptions gauss_tables_sum_not_exactly_one.
 
 (* ... but within 2e-15: the node of a translated triangle is off by at most 2e-15 * translation *)
 Theorem gauss_tables_sum_defect_bound :
